@@ -641,5 +641,6 @@ func extractC09() *lean {
 	c09EntryFacts(l, amb)
 	c09ManagerFacts(l)
 	c09CommitFacts(l, amb)
+	c09MaintFacts(l)
 	return l
 }
